@@ -824,6 +824,76 @@ class WPos(World):
 
 
 # --------------------------------------------------------------------------------------------
+# W_names: table / column / summary-table ids chosen by the engine (avoid sets in useractions)
+# --------------------------------------------------------------------------------------------
+
+def _names_sections(doc):
+  tref = table_ref(doc, 'Orders')
+  a, b, ab = (col_ref(doc, 'Orders', c) for c in ('A', 'B', 'A_B'))
+  # group-by [A, B] and [A_B] both encode to Orders_summary_A_B: the second gets a suffix
+  return [["CreateViewSection", tref, 0, "record", [a, b], None],
+          ["CreateViewSection", tref, 0, "record", [ab], None],
+          ["CreateViewSection", tref, 0, "record", [a], None]]
+
+
+NAMES_SETUP = [
+    [["AddTable", "Orders", [{"id": "A", "type": "Text"}, {"id": "B", "type": "Text"},
+                             {"id": "A_B", "type": "Text"}, {"id": "n", "type": "Int"}]]],
+    [["AddTable", "Other", [{"id": "x", "type": "Text"}]]],
+    [["BulkAddRecord", "Orders", [None, None], {"A": ["p", "q"], "B": ["r", "r"], "A_B": ["s", "t"]}]],
+    _names_sections,
+]
+
+TABLE_NAMES = ["Sales", "orders", "ORDERS", "Other", "other", "Orders_summary_A", "Sales_summary_A_B",
+               "class", "true", "None", "_x", "1abc", "a b", "\u00dcber", "", "Orders_summary_A_B2"]
+COL_NAMES = ["A", "a", "B", "class", "True", "_x", "1x", "id", "manualSort", "group", "count",
+             "A_B", "a b", "", "\u00e9t\u00e9"]
+
+
+class WNames(World):
+  name = 'W_names'
+  setup = NAMES_SETUP
+
+  def alphabet(self, doc):
+    out = []
+    A = out.append
+    dm = doc.eng.docmodel
+    user = [t.tableId for t in dm.tables.all if not t.summarySourceTable]
+    src = next((t for t in sorted(user) if t not in ('Other',) and
+                any(s.summarySourceTable and s.summarySourceTable.tableId == t for s in dm.tables.all)),
+               None)
+    for nm in TABLE_NAMES:
+      if src:
+        A(("rentable src->%r" % nm, [["RenameTable", src, nm]]))
+      A(("addtable %r" % nm, [["AddTable", nm, [{"id": "v", "type": "Int"}]]]))
+    A(("addemptytable None", [["AddEmptyTable", None]]))
+    A(("addtable x2 same name", [["AddTable", "Twin", [{"id": "v", "type": "Int"}]],
+                                 ["AddTable", "twin", [{"id": "v", "type": "Int"}]]]))
+    if src:
+      if 'Other' in user:
+        A(("rentable both", [["RenameTable", "Other", "Tmp"], ["RenameTable", src, "Other"]]))
+        A(("bulk rename tables swap-ish", [["BulkUpdateRecord", "_grist_Tables",
+                                            [table_ref(doc, src), table_ref(doc, "Other")],
+                                            {"tableId": ["Zed", "Zed_summary_A"]}]]))
+      for nm in COL_NAMES:
+        A(("addcol %r" % nm, [["AddColumn", src, nm, {"type": "Text"}]]))
+        if has_col(doc, src, 'B'):
+          A(("rencol B->%r" % nm, [["RenameColumn", src, "B", nm]]))
+      A(("addcol None", [["AddColumn", src, None, {"type": "Text"}]]))
+      A(("addcol x2 same", [["AddColumn", src, "Dup", {"type": "Text"}],
+                            ["AddColumn", src, "dup", {"type": "Text"}]]))
+      A(("addtable cols collide", [["AddTable", "Wide", [{"id": "c", "type": "Int"}, {"id": "C", "type": "Int"},
+                                                        {"id": "class", "type": "Int"}, {"id": None, "type": "Int"},
+                                                        {"id": "id", "type": "Int"}]]]))
+      if has_col(doc, src, 'A') and has_col(doc, src, 'B'):
+        a, b = col_ref(doc, src, 'A'), col_ref(doc, src, 'B')
+        A(("bulk rename cols", [["BulkUpdateRecord", "_grist_Tables_column", [a, b],
+                                 {"colId": ["Z", "z"]}]]))
+        A(("rencol A->A_B (summary names meet)", [["RenameColumn", src, "A", "A_B2"]]))
+    return out
+
+
+# --------------------------------------------------------------------------------------------
 # W_look: lookups with every key/order spec as formula columns
 # --------------------------------------------------------------------------------------------
 
@@ -944,7 +1014,7 @@ class WLook(World):
 # --------------------------------------------------------------------------------------------
 
 ALL = {'W_rec': WRec, 'W_schema': WSchema, 'W_sum': WSum, 'W_2way': W2Way, 'W_trig': WTrig,
-       'W_look': WLook, 'W_sumsum': WSumSum, 'W_pos': WPos}
+       'W_look': WLook, 'W_sumsum': WSumSum, 'W_pos': WPos, 'W_names': WNames}
 
 
 def make(names):
